@@ -171,6 +171,9 @@ def run(ctx, rep):
                key="C05.compare-values|%s" % opn)
     rep.floor("C05.compare-values evaluations", n_cmp, 150)
     equality_route(F, rep)
+    # comparisons (and everything else the tables above do not cover) are evaluated by the interpreter, never by the constant folder
+    from props import C06 as _c06
+    _c06.only_table_operators_are_folded(F, rep, rule="C05.fold-scope")
 
     # ---- (c) -------------------------------------------------------------------------------------------
     ofns = operator_fns(F)
